@@ -31,6 +31,13 @@ CHECKS = {
          "reversal on every topology and new root, and judges the observed redirect_tree / cat_tree results for every enumerated pair of trees, junction "
          "pair, translate mode and placement, concretised at lattice and non-representable float32 placements",
     design="4/C07", technique="TLA+ spec (Reroot.tla) + TLC exhaustive small-scope generation, replay into the code, TLC-judged observations; algorithm layer model-checked"),
+ "C04": dict(
+    text="StructRec.tla is an event-level specification of structural recursion (enter once per subtree node after the parent with the parent's value; "
+         "leave once after all children with exactly their values; return the start node's value; nothing outside the subtree); MC_Traverse transcribes the "
+         "explicit-stack DFS and TLC checks every step it takes is allowed by StructRec and that it terminates, for every topology, start node and callback mode; "
+         "traces recorded from swc_utils.traverse / Tree.traverse / Node.traverse are validated event by event by TLC (Trace_StructRec), and chains of 2e4-1e5 "
+         "nodes by the O(1)-state chain specialisation (Trace_ChainRec, justified by MC_ChainRec)",
+    design="4/C04", technique="TLA+ event spec (StructRec) + PlusCal-style algorithm model checked against it + trace validation of recorded implementation traces by TLC"),
 }
 
 NA_REASON = {}
